@@ -54,4 +54,10 @@ theorem biasedSVDScorerCall_eq (φ) (num : Nat → Option Nat) (tbl : Nat → Op
     biasedSVDScorerCall num tbl wrap L = scoreList num tbl L := by
   rw [scoreList_eq_map]; simp only [biasedSVDScorerCall]; rw [steps_eq_map, withScores_map]
 
+/-- the FlexMF scorers (explicit, implicit, BPR / logistic share this `__call__`): the compacted item numbers are converted to a tensor
+    and handed to the model's own kernel, whose output is scattered back -/
+theorem flexMFScorerCall_eq (φ) (num : Nat → Option Nat) (tbl : Nat → Option Rat) (wrap : Option Rat) (L : List (Item φ)) :
+    flexMFScorerCall num tbl wrap L = scoreList num tbl L := by
+  rw [scoreList_eq_map]; simp only [flexMFScorerCall]; rw [steps_eq_map, withScores_map]
+
 end LK.ArrayOps
